@@ -55,3 +55,28 @@ func paramList(fn *ssa.Function) string {
 	}
 	return strings.Join(xs, ",")
 }
+
+// discoverEvents prints every event of a function in "effect" format.
+func discoverEvents(p *Program, name string, filters []string) error {
+	fn := p.Func(name)
+	if fn == nil {
+		return fmt.Errorf("cannot resolve %s", name)
+	}
+	f := p.progFor(fn.Pkg.Pkg.Path()).facts(fn, defaultRejectMode(fn))
+	fmt.Printf("func %s reject=%s params=%s\n", name, defaultRejectMode(fn), paramList(fn))
+	for _, e := range f.Events() {
+		if len(filters) > 0 {
+			ok := false
+			for _, fl := range filters {
+				if strings.Contains(e.Full(), fl) {
+					ok = true
+				}
+			}
+			if !ok {
+				continue
+			}
+		}
+		fmt.Printf("  effect %s    # %s\n", effectKey(f, e), p.pos(e.Pos))
+	}
+	return nil
+}
